@@ -235,7 +235,7 @@ fn check_case(l: &mut Local<'_>, cfg: ModeCfg, map: &Beatmap, setts: &[Setting],
 }
 
 fn main() {
-    let ctx = Ctx::from_env("C03");
+    let ctx = Ctx::from_env_caps("C03", 55, 1500);
     ctx.rule("case = (mode configuration, grammar map); per case and setting a BFS over all histories of {next, nth(1), nth(2), nth(N), last} x 7 score states (zero, SS of the prefix, all misses, over-counts, half, worst-only, geki/katu) on a fresh gradual performance calculator; settings menu incl. lazer(false), Classic, rate + OD override, HoldOff / Invert (mania), hardrock_offsets overrides that contradict the mods (catch); every step compared with Performance::new(&map).difficulty(d)[.try_mode].passed_objects(pos).state(s).calculate(); key = (position, calls after exhaustion <= 1); non-trivial = map yields at least one value");
     ctx.assume("score states come from the 7-entry menu evaluated on the reached prefix; continuous settings are those of the menu");
 
